@@ -206,6 +206,9 @@ pub fn blocks(thorough: bool) -> Vec<Block> {
         b.push(Block::new(u_runs(), five.clone(), "{}, r, d+w, r+d, i"));
         b.push(Block::new(u_many(40), five.clone(), "{}, r, d+w, r+d, i"));
         b.push(Block::new(u_long_prefix(), vec![Cfg::new(0)], "{}"));
+        b.push(Block::new(Universe::new("U_bytes{a,b,U+20AC}", &["a", "b", "\u{20ac}"], 3, 3, false), vec![Cfg::new(0)], "{} (sort order by byte length vs number of graphemes)"));
+        b.push(Block::new(Universe::new("U_bytes{a,e9,U+20AC,U+1F600}", &["a", "\u{e9}", "\u{20ac}", "\u{1f600}"], 2, 3, false), vec![Cfg::new(0)], "{} (1-, 2-, 3- and 4-byte characters)"));
+        b.push(Block::new(Universe::new("U_adv(cluster units)", &["\u{d4e}a", ".\u{1f3fb}", "1\u{e33}", "a", "\u{111c2}-", "+\u{ff9e}"], 4, 1, false), vec![Cfg::new(R), Cfg::new(R | D), Cfg::new(R | W)], "r, r+d, r+w (a repeated two-scalar cluster whose first member is printed with a backslash)"));
         b.push(Block::new(u_prefix_suffix2(4), vec![Cfg::new(D), Cfg::new(W), Cfg::new(R), Cfg::new(D | R)], "d, w, r, d+r"));
         b.push(Block::new(u_feature_rich(), lattice_all(0, ALL_BITS & !(U | C | NA | NE)), "Lambda_full (anchored, no u,c): 2,048 combinations"));
         b.push(Block::new(Universe::new("U_adv(A_cls)", A_CLS, 2, 2, false), vec![Cfg::new(I | D | ND), Cfg::new(I | W | NW), Cfg::new(I | S | NS), Cfg::new(I | D | NW), Cfg::new(I | W | ND | R)], "i+d+D, i+w+W, i+s+S, i+d+W, i+w+D+r (a class next to its complement under case folding)"));
